@@ -306,7 +306,7 @@ async def e2e(net, hyg, plan):
                 entries.update(saved)
             mon["mlsx_entries"] += 0
         await c.quit()
-        await w.server.close()
+        await w.stop()
         return {"violations": viol, "monitors": mon, "sig": sig_of([sorted(entries.items()), now, plan["fallback"]]),
                 "nontrivial": n >= 2,
                 "sample": {"now": now, "fallback": plan["fallback"], "entries": {k: list(v) for k, v in list(entries.items())[:5]}}}
@@ -325,7 +325,7 @@ def run_case(case):
             return await e2e(net, hyg, plan)
         res, info = W.run(main, seed=plan["seed"], net_kwargs=dict(latency=0.0005))
         if res is None:
-            return {"inconclusive": info.get("deadlock") or info.get("error"), "trace": info.get("trace", "")}
+            return W.failed(info)
         for k, v in res["monitors"].items():
             out["monitors"][k] = out["monitors"].get(k, 0) + v
         if res["nontrivial"]:
